@@ -125,6 +125,46 @@ func edits(b []byte, alpha []byte, f func([]byte) bool) bool {
 
 var rsSplits = []string{"lines", "words", "bytes"}
 
+// lexUnits: the lexical units that open and close the scanner's modes and
+// token kinds (inline comment, line comment, quoted template, interpolation,
+// directive, heredoc) together with the three line-ending shapes (LF, CRLF and
+// the lone CR, which is not a newline sequence), ASCII and non-ASCII content
+// and blanks. Sequences of a few units reach what byte strings of the same
+// length cannot: a CR / CRLF / LF inside each token kind and each mode with
+// content after it on the same line ("/*" CR "*/" a; quote CR quote a;
+// "<<E\n" CR a "${"; "%{" CR "}" a; ...).
+var lexUnits = []string{"a", "1", " ", "\t", "\r", "\n", "\r\n", "/*", "*/", "#", "\"", "${", "%{", "}", "<<E\n", "\nE\n", "e\u0301"}
+
+// allUnitSeqs enumerates the concatenations of exactly l units (each distinct
+// byte string once, in enumeration order).
+func allUnitSeqs(units []string, l int, seen map[string]bool, f func([]byte) bool) bool {
+	idx := make([]int, l)
+	for {
+		var sb []byte
+		for _, k := range idx {
+			sb = append(sb, units[k]...)
+		}
+		if !seen[string(sb)] {
+			seen[string(sb)] = true
+			if !f(sb) {
+				return false
+			}
+		}
+		k := l - 1
+		for k >= 0 {
+			idx[k]++
+			if idx[k] < len(units) {
+				break
+			}
+			idx[k] = 0
+			k--
+		}
+		if k < 0 {
+			return true
+		}
+	}
+}
+
 func gen(tier string, emit func(engine.Case) bool) {
 	thorough := tier == "thorough"
 	lexLen, rsFullLen, rsSubLen, jsonLen := 4, 2, 4, 4
@@ -185,6 +225,17 @@ func gen(tier string, emit func(engine.Case) bool) {
 			}
 		}
 		if l <= jsonLen && !allStrings(jsonAlphabet, l, func(b []byte) bool { return emit(mk("json", "", b)) }) {
+			return
+		}
+	}
+	// 4b. all sequences of lexical units, by increasing length
+	unitLen := 4
+	if thorough {
+		unitLen = 5
+	}
+	seenUnits := map[string]bool{}
+	for l := 1; l <= unitLen; l++ {
+		if !allUnitSeqs(lexUnits, l, seenUnits, emitSrc) {
 			return
 		}
 	}
@@ -267,7 +318,8 @@ func main() {
 		Technique: "bounded exhaustive enumeration of byte strings, single-byte edits and grammar-generated configurations; tiling invariants, agreement with an independent newline/grapheme position counter, spans known by construction, re-parse equivalence",
 		Rule: "lex/parse: all byte strings of length <= 4 (quick) / <= 5 (thorough) over a 33-byte lexer alphabet (a 1 . \" $ % { } ~ < - = # / * [ ( , : SP TAB LF CR, bytes of U+00E9, bytes of combining U+0301, 0x80, 0xff, the three BOM bytes, backslash) " +
 			"and every single-byte delete/insert/replace of a corpus of small configurations (heredocs incl. flush, nested templates, directives, three comment kinds, CRLF, multi-byte and combining characters, one-line blocks), each through LexConfig, LexExpression, LexTemplate from positions {1,1,0} and {3,5,17}, " +
-			"and through ParseConfig/ParseExpression/ParseTemplate with the range-fidelity oracle on every error-free parse; " +
+			"and through ParseConfig/ParseExpression/ParseTemplate with the range-fidelity oracle on every error-free parse (every range-typed field of every AST node, found by reflection: well-formed, positions faithful, documented delimiters/markers/names slice to their text); " +
+			"all sequences of <= 4 (quick) / <= 5 (thorough) of 17 lexical units (a 1 SP TAB CR LF CRLF /* */ # \" ${ %{ } <<E\\n \\nE\\n e+U+0301) through the same entry points (a lone CR is one column and no newline in the native syntax); " +
 			"rs: RangeScanner / NewRangeScannerFragment x {ScanLines, ScanWords, ScanBytes} x starts {whole, {3,5,0}, {3,5,17}} over all strings <= 2/3 of the lexer alphabet and <= 4/6 of an 11-byte white-space/cluster alphabet; " +
 			"cfg: product (expression forms x expression wrappers x syntactic contexts x 2 start positions) and (block header forms x body forms x line endings) with spans known by construction; " +
 			"json: grammar-generated documents x white-space styles, all strings <= 4/5 over an 18-byte JSON alphabet, single-byte edits of the documents. " +
@@ -293,6 +345,8 @@ func main() {
 			m["expression_nodes_checked"] = nExprNodes.Load()
 			m["expression_nodes_reparsed_and_compared"] = nExprReparsed.Load()
 			m["structural_ranges_checked"] = nStructRanges.Load()
+			m["node_range_fields_checked"] = nRangeFields.Load()
+			m["node_range_fields_with_documented_text_checked"] = nRangeFieldMeanings.Load()
 			m["json_documents_accepted"] = nJSONAccepted.Load()
 			m["json_nodes_checked"] = nJSONNodes.Load()
 			m["generated_configs_error_free"] = nCfgErrorFree.Load()
